@@ -287,6 +287,8 @@ def check(prog, rep, tier):
                         want = "clear"
                     elif "val" in f.params:
                         iv = Intervals(conds, {}, crange).iv(("p", "val"))
+                        if iv[0] is not None and iv[1] is not None and iv[0] > iv[1]:
+                            continue  # the tests on val contradict each other (val == 0 and val truthy): no execution takes this path
                         want = "set" if iv == (1, 1) else ("clear" if iv == (0, 0) else "?")
                         if want == "?":
                             rep.bad("C20.value-guard", f"{CLS}.{f.src_name}", f"store under val in {fmt_iv(iv)}",
